@@ -471,48 +471,75 @@ func r075(c *Ctx, r *R) {
 	f := c.fn(r, "consensus/crdt", "Consensus.IsTrustedPeer")
 	if f != nil {
 		pidIdx := 2 // (css, ctx, pid)
+		// the three legitimate reasons to answer true, as branch edges:
+		// TrustAll, pid == own id, pid found in trustedPeers
+		isLoadOK := func(v ssa.Value) bool {
+			call, idx := originCall(v)
+			if call == nil || idx != 1 || !nameMatches(callName(call.Common()), "(*sync.Map).Load") {
+				return false
+			}
+			args := callArgs(call.Common())
+			fld, _ := fieldOfAddrValue(call.Common().Args[0])
+			return len(args) == 1 && paramIndex(f, args[0]) == pidIdx && fld != nil && fld.Name() == "trustedPeers"
+		}
+		reason := func(g Guard) bool {
+			if gField(g, "TrustAll", true) {
+				return true
+			}
+			if b, ok := g.Cond.(*ssa.BinOp); ok && (b.Op == token.EQL && g.Branch || b.Op == token.NEQ && !g.Branch) {
+				var other ssa.Value
+				if paramIndex(f, b.X) == pidIdx {
+					other = b.Y
+				} else if paramIndex(f, b.Y) == pidIdx {
+					other = b.X
+				}
+				if other != nil {
+					if call, _ := originCall(other); call != nil && nameMatches(callName(call.Common()), "host.Host).ID") {
+						return true
+					}
+				}
+			}
+			return g.Branch && isLoadOK(g.Cond)
+		}
+		nTrue, nLoad := 0, 0
 		for _, lf := range returnLeaves(f, 0) {
-			gs := lf.Guards()
 			if k, isK := constOf(lf.Val); isK {
 				if k == nil || !constant.BoolVal(k) {
 					r.OK("crdt.IsTrustedPeer:false", lf.Pos, "returns false")
 					continue
 				}
-				okG := false
-				why := ""
-				for _, g := range gs {
-					if gField(g, "TrustAll", true) {
-						okG, why = true, "config.TrustAll"
-					}
-					if b, ok := g.Cond.(*ssa.BinOp); ok && b.Op == token.EQL && g.Branch {
-						// pid == css.host.ID()
-						var other ssa.Value
-						if paramIndex(f, b.X) == pidIdx {
-							other = b.Y
-						} else if paramIndex(f, b.Y) == pidIdx {
-							other = b.X
-						}
-						if other != nil {
-							if call, _ := originCall(other); call != nil && nameMatches(callName(call.Common()), "host.Host).ID") {
-								okG, why = true, "pid == host.ID()"
-							}
-						}
-					}
-				}
-				r.Check(okG, "crdt.IsTrustedPeer:true:"+why, lf.Pos, "constant true only under "+why, "crdt IsTrustedPeer returns true on a path not guarded by TrustAll or pid == own id")
+				nTrue++
+				// every path to this `true` took one of the three edges
+				// (dominance is not enough: `TrustAll || pid == self` joins)
+				okG := lf.GuardedBy(reason) || mustPass(lf.Block, reason)
+				r.Check(okG, fmt.Sprintf("crdt.IsTrustedPeer:true#%d", nTrue), lf.Pos, "constant true only after TrustAll, pid == own id or membership in trustedPeers", "crdt IsTrustedPeer returns true on a path that established none of TrustAll, pid == own id, membership in trustedPeers")
 				continue
 			}
-			// _, ok := trustedPeers.Load(pid)
-			call, idx := originCall(lf.Val)
-			if call != nil && idx == 1 && nameMatches(callName(call.Common()), "(*sync.Map).Load") {
-				args := callArgs(call.Common())
-				fld, _ := fieldOfAddrValue(call.Common().Args[0])
-				r.Check(len(args) == 1 && paramIndex(f, args[0]) == pidIdx && fld != nil && fld.Name() == "trustedPeers", "crdt.IsTrustedPeer:load", call.Pos(),
-					"otherwise answers membership of pid in trustedPeers", "membership test is not trustedPeers.Load(pid)")
+			if isLoadOK(lf.Val) {
+				nLoad++
+				r.OK("crdt.IsTrustedPeer:load", lf.Pos, "otherwise answers membership of pid in trustedPeers")
 				continue
 			}
 			r.Bad("crdt.IsTrustedPeer:other", lf.Pos, "returns something other than TrustAll/self/trustedPeers membership: %s", lf.Val)
 		}
+		// membership is consulted at all (as a returned value or as a test)
+		usesLoad := nLoad > 0
+		for _, b := range f.Blocks {
+			if iff, ok := b.Instrs[len(b.Instrs)-1].(*ssa.If); ok {
+				cond := iff.Cond
+				for {
+					if u, ok := cond.(*ssa.UnOp); ok && u.Op == token.NOT {
+						cond = u.X
+						continue
+					}
+					break
+				}
+				if isLoadOK(cond) {
+					usesLoad = true
+				}
+			}
+		}
+		r.Check(usesLoad, "crdt.IsTrustedPeer:membership", f.Pos(), "membership of pid in trustedPeers is consulted", "crdt IsTrustedPeer no longer consults trustedPeers.Load(pid)")
 	}
 	// Trust stores pid, Distrust deletes pid, same map
 	checkKey := func(name, method string) {
@@ -750,18 +777,29 @@ func r076(c *Ctx, r *R) {
 		}
 		okAll := true
 		n := 0
-		for _, lf := range returnLeaves(v, 0) {
-			n++
-			call, _ := originCall(lf.Val)
+		// the answer is IsTrustedPeer(msg.GetFrom()): returned as such, or
+		// as true/false under the corresponding outcome of that call
+		isTrustOfSigner := func(x ssa.Value) bool {
+			call, _ := originCall(x)
 			if call == nil || !nameMatches(callName(call.Common()), "crdt.Consensus).IsTrustedPeer") {
-				okAll = false
-				continue
+				return false
 			}
 			a := callArgs(call.Common())
 			from, _ := originCall(a[1])
-			if from == nil || !nameMatches(callName(from.Common()), "pubsub.Message).GetFrom") {
-				okAll = false
+			return from != nil && nameMatches(callName(from.Common()), "pubsub.Message).GetFrom")
+		}
+		for _, lf := range returnLeaves(v, 0) {
+			n++
+			if isTrustOfSigner(lf.Val) {
+				continue
 			}
+			if k, isK := constOf(lf.Val); isK && k != nil {
+				want := constant.BoolVal(k)
+				if lf.GuardedBy(func(g Guard) bool { return g.Branch == want && isTrustOfSigner(g.Cond) }) {
+					continue
+				}
+			}
+			okAll = false
 		}
 		r.Check(okAll && n > 0, "validator:returns", v.Pos(), "validator returns IsTrustedPeer(msg.GetFrom())", "topic validator does not return IsTrustedPeer(msg.GetFrom()) on every path")
 		// same topic as the broadcaster
